@@ -291,7 +291,7 @@ func (x Expr) GetNodes(n gen.Node) (results []gen.Node) {
 							results = append(results, tv[i])
 						}
 					} else {
-						end = start + (end-start-1)/step*step
+						end = sliceLast(start, end, step)
 						for i := end; start <= i; i -= step {
 							v = tv[i]
 							switch v.(type) {
@@ -309,7 +309,7 @@ func (x Expr) GetNodes(n gen.Node) (results []gen.Node) {
 							results = append(results, tv[i])
 						}
 					} else {
-						end = start - (start-end-1)/step*step
+						end = sliceLast(start, end, step)
 						for i := end; i <= start; i -= step {
 							v = tv[i]
 							switch v.(type) {
@@ -563,7 +563,7 @@ func (x Expr) FirstNode(n gen.Node) (result gen.Node) {
 					if int(fi) == len(x)-1 && start < end { // last one
 						return tv[start]
 					}
-					end = start + (end-start-1)/step*step
+					end = sliceLast(start, end, step)
 					for i := end; start <= i; i -= step {
 						v = tv[i]
 						switch v.(type) {
@@ -578,7 +578,7 @@ func (x Expr) FirstNode(n gen.Node) (result gen.Node) {
 					if int(fi) == len(x)-1 && end < start { // last one
 						return tv[start]
 					}
-					end = start - (start-end-1)/step*step
+					end = sliceLast(start, end, step)
 					for i := end; i <= start; i -= step {
 						v = tv[i]
 						switch v.(type) {
